@@ -224,6 +224,31 @@ func solve(o *Obligation, dir string, timeout int, keep bool) *SolveResult {
 			defer os.Remove(file)
 		}
 	}
+	// flat variant: datatype constants expanded to scalars, reciprocals ackermannized, quantified hypotheses dropped
+	if o.Goal != nil && hasNonlinear(all) {
+		termMu.Lock()
+		fh, fg, ok := flatten(o.Hyps, o.Goal)
+		termMu.Unlock()
+		if ok {
+			fq, _ := BuildQuery(preludeFor(usedUFs(append(append([]*Term(nil), fh...), fg))), fh, fg, false)
+			file := base + ".flat.smt2"
+			os.WriteFile(file, []byte(fq), 0o644)
+			for _, sp := range []solverSpec{{name: "z3-new-5.1.0+flat", cmd: solvers[0].cmd}, {name: "z3-4.8.12+flat", cmd: solvers[1].cmd}} {
+				sp := sp
+				go func() {
+					first, txt, d := runSolver(ctx, sp, file, timeout)
+					if first != "unsat" {
+						first = "unknown" // a model of the weakened problem means nothing
+					}
+					ch <- ans{first, txt, d, sp}
+				}()
+				pending++
+			}
+			if !keep {
+				defer os.Remove(file)
+			}
+		}
+	}
 	launchedAll := false
 	timer := time.NewTimer(3000 * time.Millisecond)
 	defer timer.Stop()
